@@ -586,6 +586,28 @@ class _SetOperation(Selectable, Term):
         return newone
 
     @builder
+    def replace_table(self, current_table: Optional[Table], new_table: Optional[Table]) -> "_SetOperation":
+        """
+        Replaces all occurrences of the specified table with the new table in every operand of the set operation.
+        Useful when reusing fields across queries.
+
+        :param current_table:
+            The table instance to be replaces.
+        :param new_table:
+            The table instance to replace with.
+        :return:
+            A copy of the set operation with the tables replaced.
+        """
+        self.base_query = self.base_query.replace_table(current_table, new_table)
+        self._set_operation = [
+            (set_operation, query.replace_table(current_table, new_table) if isinstance(query, Term) else query)
+            for set_operation, query in self._set_operation
+        ]
+        self._orderbys = [
+            (orderby[0].replace_table(current_table, new_table), orderby[1]) for orderby in self._orderbys
+        ]
+
+    @builder
     def orderby(self, *fields: Field, **kwargs: Any) -> "_SetOperation":
         for field in fields:
             field = (
